@@ -24,7 +24,7 @@ NUM_ALPHABET = ['1', '0', '_', '.', 'e', '+', '-', 'j', 'x', 'b', 'o', 'f', '9',
 STRLIT_ALPHABET = ['r', 'b', 'u', 'f', 'R', 'B', "'", '"', 'a', '\\', '{', '}', ' ']
 INDENT_ALPHABET = ['a', ' ', '\t', '\n', '\r', '\\', '#', '(', ')', ':', '\f', 'del']
 # layout of VALID programs (relations to CPython): names, brackets, line ends, comments, continuation, indentation
-LAYOUT_ALPHABET = ['a', '(', ')', '\n', '#c', '\\\n', ' ', '    ', 'if a:', ',', ';']
+LAYOUT_ALPHABET = ['a', '(', ')', '\n', '#c', '\\\n', ' ', '    ', 'if a:', ',', ';', ':', '=']
 
 
 def tlc_strings(run_dir, n, alphabet=None, workers=4):
